@@ -130,7 +130,9 @@ func runC17(c *Ctx) {
 		for _, call := range CallsIn(fn, "deployment.DeploymentController.cleanupUnhealthyReplicas") {
 			depends("R17.2", "reconcileOldReplicaSets#cleanup-budget", fn, call.Common().Args[4], "the clean-up budget depends on the partition reserve and on maxUnavailable", fromCall("deployment.ScaleDownLimitForOld"), fromCall("util.MaxUnavailable"))
 			fs := FactsAtInstr(call.(ssa.Instruction))
-			ok := HasFact(fs, FCmp(">", MCall("deployment.ScaleDownLimitForOld"), MConst("0")))
+			lim := MCall("deployment.ScaleDownLimitForOld")
+			// limit > 0, also when written as two tests (limit == 0 handled, then limit < 0 handled)
+			ok := HasFact(fs, FCmp(">", lim, MConst("0"))) || (HasFact(fs, FCmp(">=", lim, MConst("0"))) && HasFact(fs, FCmp("!=", lim, MConst("0"))))
 			c.Ob("R17.3", "reconcileOldReplicaSets#reserve-exhausted", call.Pos(), ok, "no old pod is removed once the partition reserve is reached (limit <= 0 only scales old up)", ifs(!ok, "clean-up reachable with ScaleDownLimitForOld() <= 0")).WithFacts(fs)
 		}
 		for _, call := range CallsIn(fn, "deployment.DeploymentController.scaleUpOldReplicaSets") {
